@@ -12,6 +12,7 @@ from vlib.core import Violation, guarded, lib_call
 
 ID = "C17"
 DESIGN_REF = "3/C17"
+ROTATE_TZ = True  # shards run under different local time zones (the property must hold in all of them)
 RULE = (
     "Enumerated: (thorough) every day 1900-01-01..2200-12-31 at 00:00, at 23:59:59.999 and at one seed-derived instant, for each "
     "of the seven units, floor/ceil/round/offset; every hour of 1900, 1970, 2000, 2024, 2100, 2200; range over every month for "
